@@ -181,6 +181,36 @@ func engBld(a []string) string {
 			return "err"
 		}
 		return "ok"
+	case "make":
+		// entities.MakeTemplateSet / MakeDataSet (convenience constructors: new set, one record, copying add path)
+		if len(a) != 4 {
+			return "bad-op"
+		}
+		t, ok := setTypeOf(a[1])
+		tid, e2 := strconv.ParseUint(a[2], 10, 16)
+		elems, e3 := parseElems(a[3])
+		if !ok || e2 != nil || e3 != nil || (t != entities.Template && t != entities.Data) {
+			return "bad-op"
+		}
+		var made entities.Set
+		var err error
+		if t == entities.Template {
+			ies := make([]*entities.InfoElement, len(elems))
+			for i, e := range elems {
+				ies[i] = e.GetInfoElement()
+			}
+			made, err = entities.MakeTemplateSet(uint16(tid), ies)
+		} else {
+			made, err = entities.MakeDataSet(uint16(tid), elems)
+			for i := range elems { // the caller reuses its slice (MakeDataSet copies)
+				elems[i] = elems[0]
+			}
+		}
+		if err != nil {
+			return "err"
+		}
+		bldSet = made
+		return "ok"
 	case "upd":
 		bldSet.UpdateLenInHeader()
 		return "ok"
